@@ -61,7 +61,7 @@ def make_mp_store(root, cfg):
     old = os.environ.get("USE_MULTIPROCESSING")
     os.environ["USE_MULTIPROCESSING"] = "True"
     try:
-        return common.make_store(root, cfg)
+        return common.make_store(root, cfg, real_primitives=True)
     finally:
         if old is None:
             os.environ.pop("USE_MULTIPROCESSING", None)
